@@ -358,13 +358,17 @@ def opsXtce (op : String) (args : List SExp) : Option String :=
         let evs := packetGenerator d (root.getD d.root) o ⟨skip, TRIM_THRESHOLD⟩ st
         showEvents "events" evs)
   | "gensched", [d, root, .list [pb, ho, cb, sh, yu], skip, .list srcs, _sched] => do
-      let d ← parseDef d; let root ← root.optStr?
+      let d ← parseDef d
+      -- one root-container override for all generators, or one per generator
+      let roots : List (Option String) ← match root with
+        | .list rs => rs.mapM (·.optStr?)
+        | r => do let r ← r.optStr?; pure (srcs.map (fun _ => r))
       let o : GenOpts := { parseBad := ← pb.bool?, headersOnly := ← ho.bool?, combine := ← cb.bool?,
                            secHdrBytes := ← sh.nat?, yieldUnrec := ← yu.bool? }
       let skip ← skip.nat?
       let srcs ← srcs.mapM hexList2?
       pure (unsup d fun d =>
-        let outs := srcs.map (fun chunks =>
+        let outs := (srcs.zip roots).map (fun (chunks, root) =>
           let total := (chunks.map List.length).foldl (· + ·) 0
           let evs := packetGenerator d (root.getD d.root) o ⟨skip, TRIM_THRESHOLD⟩ (initFile chunks total)
           showEvents "G" evs)
